@@ -125,6 +125,64 @@ Proof.
       * rewrite (digit_span_nondigit c data Ed). reflexivity.
 Qed.
 
+(* the prefix parsers *)
+Lemma i64t_tail (neg : bool) (ds rest : bytes) (acc : N) :
+  (do (val, rest1) <- (if dec_acc ds acc <? U64_LIM then Ok (dec_acc ds acc, rest) else Err E_Overflow);
+   if val <=? I64_MAX then Ok (((if neg then (-1) else 1) * Z.of_N val)%Z, rest1) else Err E_Overflow) =
+  if I64_MAX <? dec_acc ds acc then Err E_Overflow
+  else Ok ((if neg then - Z.of_N (dec_acc ds acc) else Z.of_N (dec_acc ds acc))%Z, rest).
+Proof.
+  destruct (N.ltb_spec (dec_acc ds acc) U64_LIM) as [Hl|Hl]; cbn [obind].
+  - rewrite leb_ltb_neg. destruct (I64_MAX <? dec_acc ds acc); cbn [negb]; [reflexivity|].
+    destruct neg; do 2 f_equal; lia.
+  - replace (I64_MAX <? dec_acc ds acc) with true; [reflexivity|].
+    symmetry. apply N.ltb_lt. unfold I64_MAX, U64_LIM in *. lia.
+Qed.
+
+Theorem to_i64_t_eq_spec d : to_i64_t d = i64t_spec d.
+Proof.
+  destruct d as [|c data]; [reflexivity|]. unfold to_i64_t, i64t_spec.
+  destruct (is_digit c) eqn:Ed.
+  - destruct (digit_not_sign c Ed) as (E43 & E45 & _). rewrite E43, E45. cbn [orb negb andb].
+    rewrite (digit_span_digit c data Ed).
+    rewrite (to_u64_t2_span data (c - 48) (digit_lt c Ed)).
+    destruct (digit_span data) as [ds rest]. cbn [fst snd is_nil].
+    rewrite dec_value_eq, <- (dec_digit_cons c ds Ed).
+    exact (i64t_tail false ds rest (c - 48)).
+  - cbn [orb]. destruct (c =? 45) eqn:E45.
+    + cbn [orb negb andb]. rewrite (to_u64_t2_span data 0 ltac:(reflexivity)).
+      destruct (digit_span data) as [ds rest]. cbn [fst snd]. rewrite dec_value_eq. unfold dec.
+      exact (i64t_tail true ds rest 0).
+    + cbn [orb]. destruct (c =? 43) eqn:E43.
+      * cbn [negb andb]. rewrite (to_u64_t2_span data 0 ltac:(reflexivity)).
+        destruct (digit_span data) as [ds rest]. cbn [fst snd]. rewrite dec_value_eq. unfold dec.
+        exact (i64t_tail false ds rest 0).
+      * rewrite (digit_span_nondigit c data Ed). reflexivity.
+Qed.
+
+Lemma beqb_suffix_false' fs rest : fs <> [] -> beqb rest (fs ++ rest) = false.
+Proof.
+  intros Hne. destruct (beqb rest (fs ++ rest)) eqn:E; [|reflexivity].
+  assert (Hl : forall a b, beqb a b = true -> length a = length b).
+  { induction a as [|x a IH]; intros [|y b]; cbn [beqb]; try discriminate; [reflexivity|].
+    intros H. apply andb_prop in H as [_ H]. cbn [length]. now rewrite (IH b H). }
+  apply Hl in E. rewrite app_length in E. destruct fs; [congruence|cbn [length] in E; lia].
+Qed.
+
+Theorem to_u64_t_eq_spec d start : start < U64_LIM -> to_u64_t d start = u64t_spec d start.
+Proof.
+  intros Hs. unfold to_u64_t, u64t_spec. rewrite (to_u64_t2_span d start Hs).
+  destruct (digit_span_spec d) as (H1 & _ & _).
+  destruct (digit_span d) as [ds rest]. cbn [fst snd] in *.
+  rewrite dec_on_eq, leb_ltb_neg.
+  destruct (dec_acc ds start <? U64_LIM); cbn [negb obind]; [|reflexivity].
+  destruct ds as [|x ds].
+  - cbn [app] in H1. subst rest. cbn [is_nil].
+    replace (beqb d d) with true; [reflexivity|].
+    symmetry. clear. induction d as [|x d IH]; cbn [beqb]; [reflexivity|]. now rewrite N.eqb_refl, IH.
+  - cbn [is_nil]. rewrite H1 at 1. now rewrite beqb_suffix_false' by discriminate.
+Qed.
+
 (* ================================================================== *)
 (* to_bool = bool_spec                                                  *)
 (* ================================================================== *)
